@@ -51,6 +51,7 @@ type Defects struct {
 	NullObjZero      bool // F28: null for required nullable object runs validators on zero struct
 	MaxZeroIgnored   bool // maxLength/maxItems/minimum-style zero sentinel (not representable: harness never states 0)
 	AddPropObjLax    bool // additionalProperties with object/array schema: values are not validated
+	AllOfNestedReuse bool // allOf: an inline-object property of a member given by $ref keeps that definition's declared type; what later members say about the same property is lost
 	AllOfFirstWins   bool // allOf members are merged; for a keyword stated by several members the first one counts
 	UntypedCompDef   bool // a definition that is only allOf/anyOf (no type) whose members do not all state one type is interface{}
 	NamedNullZero    bool // null at a defaulted property that refers to a validated named scalar: the zero value is validated
@@ -174,7 +175,33 @@ func (c *evalCtx) eval(s *sg.Schema, v any, path string, pos ctxPos) {
 
 	if c.d.AllOfFirstWins && len(s.AllOf) > 1 {
 		// defect model: the members are merged keyword by keyword, the first member that states a keyword wins
-		c.eval(mergeFirstWins(s.AllOf, 0), v, path, ctxPos{})
+		c.eval(mergeFirstWins(s.AllOf, 0, c.d.AllOfNestedReuse), v, path, ctxPos{})
+	} else if c.d.AllOfNestedReuse && len(s.AllOf) > 1 {
+		// defect model: the nested struct type a referenced definition declared for its inline-object property is
+		// reused for the merged struct; later members are evaluated without that property
+		claimed := map[string]bool{}
+		for _, b := range s.AllOf {
+			rb := b.Resolve()
+			eb := b
+			if rb != nil && len(claimed) > 0 {
+				cp := *rb
+				cp.Props = nil
+				for _, p := range rb.Props {
+					if !claimed[p.Name] {
+						cp.Props = append(cp.Props, p)
+					}
+				}
+				eb = &cp
+			}
+			c.eval(eb, v, path, ctxPos{})
+			if b.Ref != "" && rb != nil {
+				for _, p := range rb.Props {
+					if declaresNestedStruct(p.S) {
+						claimed[p.Name] = true
+					}
+				}
+			}
+		}
 	} else {
 		for _, b := range s.AllOf {
 			c.eval(b, v, path, ctxPos{})
@@ -317,15 +344,17 @@ func untypedMixedComposition(t *sg.Schema) bool {
 
 // mergeFirstWins builds the schema the tool's allOf merge yields: scalar keywords from the first member that states
 // them, required lists concatenated, properties merged by name (recursively), references looked through.
-func mergeFirstWins(members []*sg.Schema, depth int) *sg.Schema {
+func mergeFirstWins(members []*sg.Schema, depth int, reuse bool) *sg.Schema {
 	out := &sg.Schema{}
+	claimed := map[string]bool{}
 	for _, m := range members {
+		viaRef := m != nil && m.Ref != ""
 		m = m.Resolve()
 		if m == nil || depth > 20 {
 			continue
 		}
 		if len(m.AllOf) > 0 {
-			m = mergeFirstWins(append([]*sg.Schema{shallowWithoutAllOf(m)}, m.AllOf...), depth+1)
+			m = mergeFirstWins(append([]*sg.Schema{shallowWithoutAllOf(m)}, m.AllOf...), depth+1, reuse)
 		}
 		if len(out.Types) == 0 {
 			out.Types = m.Types
@@ -378,7 +407,7 @@ func mergeFirstWins(members []*sg.Schema, depth int) *sg.Schema {
 			if out.Items == nil {
 				out.Items = m.Items
 			} else {
-				out.Items = mergeFirstWins([]*sg.Schema{out.Items, m.Items}, depth+1)
+				out.Items = mergeFirstWins([]*sg.Schema{out.Items, m.Items}, depth+1, reuse)
 			}
 		}
 		if len(m.AnyOf) > 0 && len(out.AnyOf) == 0 {
@@ -388,16 +417,30 @@ func mergeFirstWins(members []*sg.Schema, depth int) *sg.Schema {
 			found := false
 			for i := range out.Props {
 				if out.Props[i].Name == p.Name {
-					out.Props[i].S = mergeFirstWins([]*sg.Schema{out.Props[i].S, p.S}, depth+1)
+					if !(reuse && claimed[p.Name]) {
+						out.Props[i].S = mergeFirstWins([]*sg.Schema{out.Props[i].S, p.S}, depth+1, reuse)
+					}
 					found = true
 				}
 			}
 			if !found {
 				out.Props = append(out.Props, sg.Prop{Name: p.Name, S: p.S})
+				if viaRef && declaresNestedStruct(p.S) {
+					claimed[p.Name] = true
+				}
 			}
 		}
 	}
 	return out
+}
+
+// declaresNestedStruct: an inline object schema with properties - the generator declares a struct type for it.
+func declaresNestedStruct(s *sg.Schema) bool {
+	if s == nil || s.Ref != "" || len(s.Props) == 0 {
+		return false
+	}
+	t, _, ok := s.NonNullType()
+	return ok && t == "object"
 }
 
 func shallowWithoutAllOf(m *sg.Schema) *sg.Schema {
